@@ -6,7 +6,9 @@
 //! (b) Rogue peer: an endpoint written directly against `snow` completes a cryptographically
 //!     valid XX session but controls the identity payload (catalogue of forgeries, both roles).
 use crate::carrier::{duplex, CarrierKnobs, End, OffsetMangler};
-use crate::node::keypair;
+use crate::node::{self, base_config, gen_node_knobs, keypair, listen_addr, peer_id, with_p2p};
+use crate::simnet::{NetKnobs, SimNet};
+use litep2p::{protocol::libp2p::ping, Litep2p, Litep2pEvent};
 use crate::rng::Rng;
 use crate::runner::{Budget, Describe, Prop, Tier};
 use crate::sim::{run_sim, Handle, RunOutput, SchedKind};
@@ -134,6 +136,12 @@ pub const VARIANTS: &[&str] = &[
     "other_identity_fully_valid",
     "sig_all_zero",
     "sig_over_empty_message",
+    // a proof the honest side accepted in an earlier session, presented again over a session with
+    // another static key (anything memoised per identity instead of per session shows here)
+    "replay_of_accepted_proof",
+    // identity key = neutral point of the curve, signature (R = neutral, s = 0): verifies for any
+    // message under cofactorless non-strict ed25519 verification
+    "small_order_identity_key",
 ];
 
 fn pb_bytes(field: u8, data: &[u8]) -> Vec<u8> {
@@ -191,6 +199,13 @@ fn forge(variant: &str, me: &Keypair, other: &Keypair, static_pub: &[u8]) -> (Ve
             let oid = pb_pubkey(1, &other.public().to_bytes());
             ([pb_bytes(1, &oid), pb_bytes(2, &other.sign(&[DOMAIN, static_pub].concat()))].concat(), Some(peer_of(other)))
         }
+        "small_order_identity_key" => {
+            let mut k = [0u8; 32];
+            k[0] = 1;
+            let mut sig = [0u8; 64];
+            sig[0] = 1;
+            ([pb_bytes(1, &pb_pubkey(1, &k)), pb_bytes(2, &sig)].concat(), None)
+        }
         "sig_all_zero" => ([pb_bytes(1, &id), pb_bytes(2, &[0u8; 64])].concat(), None),
         _ => ([pb_bytes(1, &id), pb_bytes(2, &me.sign(&[]))].concat(), None),
     }
@@ -211,32 +226,52 @@ async fn read_msg(io: &mut End) -> std::io::Result<Vec<u8>> {
     Ok(m)
 }
 
-/// The rogue endpoint: a valid XX session, attacker-chosen payload.
-async fn rogue(mut io: End, dialer: bool, seed: u64, variant: String, me: Keypair, other: Keypair) -> Result<(), String> {
-    let builder = snow::Builder::with_resolver("Noise_XX_25519_ChaChaPoly_SHA256".parse().unwrap(), Box::new(RogueResolver(seed)));
+/// One rogue session: a valid XX handshake whose identity payload is chosen by `payload`, which is
+/// given the static key of this session. Returns that static key.
+async fn rogue_hs(io: &mut End, dialer: bool, rseed: u64, payload: impl FnOnce(&[u8]) -> Vec<u8>) -> Result<Vec<u8>, String> {
+    let builder = snow::Builder::with_resolver("Noise_XX_25519_ChaChaPoly_SHA256".parse().unwrap(), Box::new(RogueResolver(rseed)));
     let kp = builder.generate_keypair().map_err(|e| format!("{e:?}"))?;
-    let (payload, _) = forge(&variant, &me, &other, &kp.public);
+    let payload = payload(&kp.public);
     let mut buf = vec![0u8; 4096];
     let mut out = vec![0u8; 4096];
     if dialer {
         let mut hs = builder.local_private_key(&kp.private).build_initiator().map_err(|e| format!("{e:?}"))?;
         let n = hs.write_message(&[], &mut buf).map_err(|e| format!("{e:?}"))?;
-        write_msg(&mut io, &buf[..n]).await.map_err(|e| format!("{e:?}"))?;
-        let m = read_msg(&mut io).await.map_err(|e| format!("{e:?}"))?;
+        write_msg(io, &buf[..n]).await.map_err(|e| format!("{e:?}"))?;
+        let m = read_msg(io).await.map_err(|e| format!("{e:?}"))?;
         hs.read_message(&m, &mut out).map_err(|e| format!("{e:?}"))?;
         let n = hs.write_message(&payload, &mut buf).map_err(|e| format!("{e:?}"))?;
-        write_msg(&mut io, &buf[..n]).await.map_err(|e| format!("{e:?}"))?;
+        write_msg(io, &buf[..n]).await.map_err(|e| format!("{e:?}"))?;
     } else {
         let mut hs = builder.local_private_key(&kp.private).build_responder().map_err(|e| format!("{e:?}"))?;
-        let m = read_msg(&mut io).await.map_err(|e| format!("{e:?}"))?;
+        let m = read_msg(io).await.map_err(|e| format!("{e:?}"))?;
         hs.read_message(&m, &mut out).map_err(|e| format!("{e:?}"))?;
         let n = hs.write_message(&payload, &mut buf).map_err(|e| format!("{e:?}"))?;
-        write_msg(&mut io, &buf[..n]).await.map_err(|e| format!("{e:?}"))?;
-        let m = read_msg(&mut io).await.map_err(|e| format!("{e:?}"))?;
+        write_msg(io, &buf[..n]).await.map_err(|e| format!("{e:?}"))?;
+        let m = read_msg(io).await.map_err(|e| format!("{e:?}"))?;
         hs.read_message(&m, &mut out).map_err(|e| format!("{e:?}"))?;
     }
-    // keep the pipe open for a while so the honest side decides on the payload, not on EOF
+    Ok(kp.public)
+}
+
+/// The rogue endpoint: `ios.len() - 1` honest sessions (prelude), then the attack session.
+async fn rogue(mut ios: Vec<End>, dialer: bool, seed: u64, variant: String, me: Keypair, other: Keypair) -> Result<(), String> {
+    let mut statics: Vec<Vec<u8>> = Vec::new();
+    let last = ios.len() - 1;
+    for (k, io) in ios.iter_mut().enumerate() {
+        let st = if k < last {
+            rogue_hs(io, dialer, seed.wrapping_add(k as u64 * 7919), |st| forge("honest", &me, &other, st).0).await?
+        } else if variant == "replay_of_accepted_proof" {
+            let first = statics.first().cloned().unwrap_or_default();
+            rogue_hs(io, dialer, seed.wrapping_add(k as u64 * 7919), |_| forge("honest", &me, &other, &first).0).await?
+        } else {
+            rogue_hs(io, dialer, seed.wrapping_add(k as u64 * 7919), |st| forge(&variant, &me, &other, st).0).await?
+        };
+        statics.push(st);
+    }
+    // keep the pipes open for a while so the honest side decides on the payload, not on EOF
     tokio::time::sleep(Duration::from_secs(30)).await;
+    drop(ios);
     Ok(())
 }
 
@@ -261,18 +296,19 @@ impl Prop for C01 {
     fn describe(&self) -> Describe {
         Describe {
             level: "fault_enumeration",
-            rule: "systematic pre-pass: every byte offset 0..260 of each direction of the handshake x {flip bit 0, flip bit 7, set 0x00, set 0xff, truncate} with an active man in the middle, and every forged identity payload of the catalogue x both roles against a rogue peer that completes a valid Noise XX session; then seeded runs drawing key pairs, attack, offset, carrier fragmentation / short writes / Pending and the task schedule; non-trivial = the attack actually altered a byte in flight or a forged payload was presented; distinct = distinct trace hash".into(),
-            real: vec!["crypto::noise::handshake (both roles)", "NoiseContext", "parse_and_verify_peer_id", "RemotePublicKey::from_protobuf_encoding / verify", "PeerId::from_public_key_protobuf", "snow"],
+            rule: "systematic pre-pass: every byte offset 0..260 of each direction of the handshake x {flip bit 0, flip bit 7, set 0x00, set 0xff, truncate} with an active man in the middle, and every forged identity payload of the catalogue (17 variants incl. replay of a proof accepted in an earlier session and a small-order identity key) x both roles against a rogue peer that completes a valid Noise XX session, optionally after 1-3 honest prelude sessions of the same rogue; whole-node impostor scenario (1/8 of seeded runs): three litep2p nodes on SimNet, an address stored for peer V leads to the conforming node R, dialed by peer id (parallel open path) or by address, with/without V's genuine address among the candidates; then seeded runs drawing key pairs, attack, offset, carrier fragmentation / short writes / Pending and the task schedule; non-trivial = the attack actually altered a byte in flight or a forged payload was presented; distinct = distinct trace hash".into(),
+            real: vec!["crypto::noise::handshake (both roles)", "NoiseContext", "parse_and_verify_peer_id", "RemotePublicKey::from_protobuf_encoding / verify", "PeerId::from_public_key_protobuf", "snow", "impostor mode: Litep2p, TransportManager, TcpTransport::dial/open, TcpConnection::negotiate_connection (PeerIdMismatch)"],
             stub: vec!["carrier (in-memory duplex pipe)", "the man in the middle", "the rogue peer (snow + hand-encoded payload)", "task scheduler (seeded)", "clock"],
             assumptions: vec![
-                "the comparison of the proven identity with the dialed peer id happens in TcpConnection and is exercised end-to-end by the whole-node dial scenario (address shape wrong_peer), see C05",
+                "the comparison of the proven identity with the dialed peer id happens in TcpConnection and is exercised end-to-end by the impostor mode (both dial paths) and additionally by the whole-node dial scenario of C05 (address shape wrong_peer)",
+                "impostor mode judges a dial by its report: every accepted dial of V through R's address yields a failure report naming that address with PeerIdMismatch within 30 s, no ConnectionEstablished names a peer other than the identity living at the remote address, and a genuine address among the candidates wins",
                 "the rogue's own session randomness comes from the run seed",
             ],
         }
     }
 
     fn nontrivial(&self, out: &RunOutput) -> bool {
-        out.probes.keys().any(|k| k.starts_with("attack-fired") || k.starts_with("rogue:"))
+        out.probes.keys().any(|k| k.starts_with("attack-fired") || k.starts_with("rogue:") || k.starts_with("impostor-reached"))
     }
 
     fn systematic(&self, tier: Tier) -> Vec<Value> {
@@ -300,6 +336,9 @@ impl Prop for C01 {
         let mut rng = Rng::fork(seed, "c01-gen");
         let carrier = CarrierKnobs::gen(&mut rng);
         let sched = SchedKind::gen(&mut rng, 500);
+        if rng.chance(1, 8) {
+            return gen_impostor(seed, &mut rng);
+        }
         if rng.chance(1, 2) {
             let attack = if rng.chance(1, 6) {
                 Value::Null
@@ -308,7 +347,7 @@ impl Prop for C01 {
             };
             json!({"property": "C01", "seed": seed, "mode": "mitm", "sched": sched, "carrier": carrier, "attack": attack})
         } else {
-            json!({"property": "C01", "seed": seed, "mode": "rogue", "sched": sched, "carrier": carrier, "variant": *rng.pick(VARIANTS), "rogue_dialer": rng.chance(1, 2)})
+            json!({"property": "C01", "seed": seed, "mode": "rogue", "sched": sched, "carrier": carrier, "variant": *rng.pick(VARIANTS), "rogue_dialer": rng.chance(1, 2), "prelude": if rng.chance(1, 3) { rng.range(1, 3) } else { 0 }})
         }
     }
 
@@ -320,6 +359,9 @@ impl Prop for C01 {
         let case = case.clone();
         let seed = case["seed"].as_u64().unwrap_or(0);
         let sched = SchedKind::from_json(&case["sched"]);
+        if case["mode"].as_str() == Some("impostor") {
+            return run_impostor(case, verbose);
+        }
         run_sim(seed, sched, Duration::from_secs(60), 2_000_000, verbose, move |handle: Handle| {
             let knobs = CarrierKnobs::from_json(&case["carrier"]);
             let (a, b, wires) = duplex(&handle, seed, &knobs);
@@ -329,10 +371,26 @@ impl Prop for C01 {
             let kp = [keypair(seed, 1), keypair(seed, 2)];
             let other = keypair(seed, 3);
             let peers: Vec<PeerId> = kp.iter().map(|k| PeerId::from_public_key(&litep2p::crypto::PublicKey::Ed25519(k.public()))).collect();
-            let honest = |side: usize, io: End, h: &Handle, world: Arc<Mutex<World>>, kp: Keypair| {
+            let honest = |side: usize, mut ios: Vec<End>, h: &Handle, world: Arc<Mutex<World>>, kp: Keypair, prelude_peer: Option<PeerId>| {
+                let h2 = h.clone();
                 h.spawn(side + 1, "honest-endpoint", async move {
                     let role = if side == 0 { Role::Dialer } else { Role::Listener };
+                    let io = ios.pop().expect("at least one session");
+                    // earlier, honest sessions of the same remote: all must be accepted
+                    let mut earlier = Vec::new();
+                    for io in ios {
+                        let role = if side == 0 { Role::Dialer } else { Role::Listener };
+                        match handshake(io, &kp, role, 2, 2, Duration::from_secs(5), HandshakeTransport::Tcp).await {
+                            Ok((socket, peer)) if Some(peer) == prelude_peer => {
+                                h2.probe("prelude-session-ok");
+                                earlier.push(socket);
+                            }
+                            Ok((_, peer)) => h2.violation("c01:wrong-peer-reported:prelude", format!("honest prelude session reported {peer}")),
+                            Err(e) => h2.violation("c01:valid-identity-rejected:prelude", format!("honest prelude session failed: {e:?}")),
+                        }
+                    }
                     let r = handshake(io, &kp, role, 2, 2, Duration::from_secs(5), HandshakeTransport::Tcp).await;
+                    let _earlier = earlier;
                     let res = match r {
                         Ok((socket, peer)) => {
                             // keep the socket alive so the other side is judged on the handshake alone
@@ -354,24 +412,36 @@ impl Prop for C01 {
                     let wire = if at["dir"].as_u64().unwrap_or(0) == 0 { &wires.0 } else { &wires.1 };
                     wire.lock().unwrap().mangler = Some(Box::new(m));
                 }
-                honest(0, a, &handle, world.clone(), kp[0].clone());
-                honest(1, b, &handle, world.clone(), kp[1].clone());
+                honest(0, vec![a], &handle, world.clone(), kp[0].clone(), None);
+                honest(1, vec![b], &handle, world.clone(), kp[1].clone(), None);
             } else {
                 let rogue_dialer = case["rogue_dialer"].as_bool().unwrap_or(true);
                 let variant = case["variant"].as_str().unwrap_or("honest").to_string();
                 let (rogue_io, honest_io) = if rogue_dialer { (a, b) } else { (b, a) };
                 honest_side = if rogue_dialer { 1 } else { 0 };
                 let rk = kp[1 - honest_side].clone();
+                // honest sessions before the attack session
+                let prelude = case["prelude"].as_u64().unwrap_or(0).max(if variant == "replay_of_accepted_proof" { 1 } else { 0 }).min(4);
+                let (mut rogue_ios, mut honest_ios) = (Vec::new(), Vec::new());
+                for k in 0..prelude {
+                    let (a, b, _) = duplex(&handle, seed.wrapping_add(100 + k), &knobs);
+                    let (r, h) = if rogue_dialer { (a, b) } else { (b, a) };
+                    rogue_ios.push(r);
+                    honest_ios.push(h);
+                }
+                rogue_ios.push(rogue_io);
+                honest_ios.push(honest_io);
+                let prelude_peer = Some(peers[1 - honest_side]);
                 // what may the honest side accept?
                 let dummy_static = [0u8; 32];
                 let (_, exp) = forge(&variant, &rk, &other, &dummy_static);
                 expected_rogue = Some(exp);
-                honest(honest_side, honest_io, &handle, world.clone(), kp[honest_side].clone());
+                honest(honest_side, honest_ios, &handle, world.clone(), kp[honest_side].clone(), prelude_peer);
                 let h2 = handle.clone();
                 let v2 = variant.clone();
                 let o2 = other.clone();
                 handle.spawn(2 - honest_side, "rogue-endpoint", async move {
-                    let r = rogue(rogue_io, rogue_dialer, seed, v2.clone(), rk, o2).await;
+                    let r = rogue(rogue_ios, rogue_dialer, seed, v2.clone(), rk, o2).await;
                     h2.event(format!("rogue({v2}) finished: {r:?}"));
                 });
                 handle.probe(&format!("rogue:{variant}"));
@@ -447,4 +517,201 @@ impl Prop for C01 {
             })
         })
     }
+}
+
+// ---------------------------------------------------------------------------------------------
+// (c) impostor: whole nodes; an address stored for peer V leads to the conforming node R
+// ---------------------------------------------------------------------------------------------
+
+fn gen_impostor(seed: u64, rng: &mut Rng) -> Value {
+    let v_alive = rng.chance(1, 2);
+    json!({
+        "property": "C01",
+        "seed": seed,
+        "mode": "impostor",
+        "sched": SchedKind::gen(rng, 3000),
+        "net": NetKnobs::gen(rng),
+        "node_knobs": gen_node_knobs(rng),
+        // how the dial reaches the transport: by peer id over the stored addresses (parallel
+        // `open` path) or by address (`dial` path)
+        "path": *rng.pick(&["open", "open", "dial"]),
+        "v_alive": v_alive,
+        "v_real_addr_known": v_alive && rng.chance(1, 2),
+        "dead_addrs": rng.below(3),
+        "impostor_first": rng.chance(1, 2),
+        "rounds": rng.range(1, 3),
+    })
+}
+
+#[derive(Clone, Debug)]
+enum Ev {
+    Established { peer: PeerId, addr: String, listener: bool },
+    Closed,
+    Failure { addrs: Vec<(String, String)> },
+    DialCall { ok: bool, err: String },
+}
+
+fn run_impostor(case: Value, verbose: bool) -> RunOutput {
+    let seed = case["seed"].as_u64().unwrap_or(0);
+    let sched = SchedKind::from_json(&case["sched"]);
+    run_sim(seed, sched, Duration::from_secs(120), 3_000_000, verbose, move |handle: Handle| {
+        let net = SimNet::new(handle.clone(), seed, NetKnobs::from_json(&case["net"]));
+        net.install();
+        let v_alive = case["v_alive"].as_bool().unwrap_or(false);
+        let v_known = v_alive && case["v_real_addr_known"].as_bool().unwrap_or(false);
+        let path_open = case["path"].as_str().unwrap_or("open") == "open";
+        let rounds = case["rounds"].as_u64().unwrap_or(1).clamp(1, 3);
+        // node 1 = T (dials), node 2 = R (the impostor's address), node 3 = V (identity dialed)
+        let log: Arc<Mutex<Vec<(usize, u64, Ev)>>> = Arc::new(Mutex::new(Vec::new()));
+        let impostor_addr = with_p2p(listen_addr(2), peer_id(seed, 3));
+        let mut stored = vec![impostor_addr.clone()];
+        if v_known {
+            stored.push(with_p2p(listen_addr(3), peer_id(seed, 3)));
+        }
+        for k in 0..case["dead_addrs"].as_u64().unwrap_or(0).min(3) {
+            stored.push(with_p2p(format!("/ip4/10.0.0.3/tcp/{}", 2 + k).parse().unwrap(), peer_id(seed, 3)));
+        }
+        if !case["impostor_first"].as_bool().unwrap_or(true) {
+            stored.reverse();
+        }
+        let mut t_cmd = None;
+        for i in 1..=3usize {
+            if i == 3 && !v_alive {
+                continue;
+            }
+            node::CURRENT_NODE.with(|c| c.set(i));
+            let (pc, pev) = ping::Config::default();
+            let b = base_config(&handle, seed, i, &case["node_knobs"]).with_libp2p_ping(pc);
+            handle.spawn(i, "ping-events", async move {
+                let mut pev = pev;
+                while futures::StreamExt::next(&mut pev).await.is_some() {}
+            });
+            let mut l = match Litep2p::new(b.build()) {
+                Ok(l) => l,
+                Err(e) => {
+                    handle.violation("harness:litep2p-new", format!("{e:?}"));
+                    return Box::new(|| {});
+                }
+            };
+            if i == 1 {
+                l.add_known_address(peer_id(seed, 3), stored.clone().into_iter());
+            }
+            let (tx, mut rx) = tokio::sync::mpsc::unbounded_channel::<()>();
+            if i == 1 {
+                t_cmd = Some(tx);
+            }
+            let log = log.clone();
+            let h = handle.clone();
+            let imp = impostor_addr.clone();
+            handle.spawn(i, "litep2p-event-loop", async move {
+                let mut open = true;
+                loop {
+                    tokio::select! {
+                        biased;
+                        c = rx.recv(), if open => match c {
+                            None => open = false,
+                            Some(()) => {
+                                let r = if path_open { l.dial(&peer_id(seed, 3)).await } else { l.dial_address(imp.clone()).await };
+                                let now = crate::sim::vnow().as_nanos() as u64;
+                                log.lock().unwrap().push((i, now, Ev::DialCall { ok: r.is_ok(), err: r.as_ref().err().map(|e| format!("{e:?}")).unwrap_or_default() }));
+                                h.event(format!("n{i} dial -> {r:?}"));
+                            }
+                        },
+                        ev = l.next_event() => {
+                            let now = crate::sim::vnow().as_nanos() as u64;
+                            let e = match ev {
+                                Some(Litep2pEvent::ConnectionEstablished { peer, endpoint }) => Ev::Established { peer, addr: endpoint.address().to_string(), listener: endpoint.is_listener() },
+                                Some(Litep2pEvent::ConnectionClosed { .. }) => Ev::Closed,
+                                Some(Litep2pEvent::DialFailure { address, error }) => Ev::Failure { addrs: vec![(address.to_string(), format!("{error:?}"))] },
+                                Some(Litep2pEvent::ListDialFailures { errors }) => Ev::Failure { addrs: errors.into_iter().map(|(a, e)| (a.to_string(), format!("{e:?}"))).collect() },
+                                None => return,
+                            };
+                            h.event(format!("n{i} event {e:?}"));
+                            log.lock().unwrap().push((i, now, e));
+                        }
+                    }
+                }
+            });
+        }
+        node::CURRENT_NODE.with(|c| c.set(0));
+        {
+            let log = log.clone();
+            let h = handle.clone();
+            let t_cmd = t_cmd.unwrap();
+            handle.spawn(0, "driver", async move {
+                tokio::time::sleep(Duration::from_millis(50)).await;
+                for _ in 0..rounds {
+                    let before = log.lock().unwrap().iter().filter(|(n, _, e)| *n == 1 && matches!(e, Ev::Failure { .. } | Ev::Established { listener: false, .. })).count();
+                    let _ = t_cmd.send(());
+                    // wait for the outcome of this dial (bounded: connection open timeout + slack)
+                    for _ in 0..3000 {
+                        tokio::time::sleep(Duration::from_millis(10)).await;
+                        let l = log.lock().unwrap();
+                        let now = l.iter().filter(|(n, _, e)| *n == 1 && matches!(e, Ev::Failure { .. } | Ev::Established { listener: false, .. })).count();
+                        let refused = matches!(l.iter().rev().find(|(n, _, e)| *n == 1 && matches!(e, Ev::DialCall { .. })), Some((_, _, Ev::DialCall { ok: false, .. })));
+                        if now > before || refused {
+                            break;
+                        }
+                    }
+                    if log.lock().unwrap().iter().any(|(n, _, e)| *n == 1 && matches!(e, Ev::Established { .. })) {
+                        break;
+                    }
+                }
+                tokio::time::sleep(Duration::from_millis(500)).await;
+                h.stop();
+            });
+        }
+        let h = handle.clone();
+        Box::new(move || {
+            let log = log.lock().unwrap().clone();
+            h.probe("impostor-reached");
+            let who = |addr: &str| -> Option<usize> { (1..=3).find(|j| addr.contains(&format!("/ip4/10.0.0.{j}/"))) };
+            // 1. a reported peer is the identity living at the remote address
+            for (n, t, e) in log.iter() {
+                if let Ev::Established { peer, addr, listener } = e {
+                    if let Some(j) = who(addr) {
+                        if *peer != peer_id(seed, j) {
+                            h.violation("c01:connection-reported-for-unproven-peer", format!("t={:.3}s node {n}: ConnectionEstablished(peer {peer}, {} {addr}) but the node at that address holds the identity {}", *t as f64 / 1e9, if *listener { "listener" } else { "dialer" }, peer_id(seed, j)));
+                            return;
+                        }
+                    }
+                }
+            }
+            let t_est: Vec<&Ev> = log.iter().filter(|(n, _, e)| *n == 1 && matches!(e, Ev::Established { .. })).map(|(_, _, e)| e).collect();
+            let calls: Vec<&Ev> = log.iter().filter(|(n, _, e)| *n == 1 && matches!(e, Ev::DialCall { .. })).map(|(_, _, e)| e).collect();
+            let accepted = calls.iter().filter(|e| matches!(e, Ev::DialCall { ok: true, .. })).count();
+            let fails: Vec<&Vec<(String, String)>> = log.iter().filter_map(|(n, _, e)| match e { Ev::Failure { addrs } if *n == 1 => Some(addrs), _ => None }).collect();
+            if v_known && path_open {
+                // the genuine address is among the candidates: the dial must end at V
+                if t_est.is_empty() {
+                    h.violation("c01:genuine-address-lost-to-impostor", format!("dial(V) with the stored addresses {:?}: V is up and reachable but no connection was established; failures {fails:?}", stored.iter().map(|a| a.to_string()).collect::<Vec<_>>()));
+                } else {
+                    h.probe("impostor-beaten-by-genuine-address");
+                }
+                return;
+            }
+            // every accepted dial ends in one failure report, the impostor's address carries PeerIdMismatch
+            if !t_est.is_empty() {
+                h.violation("c01:connection-despite-impostor", format!("node 1 reports {t_est:?} although no stored address leads to V"));
+                return;
+            }
+            if fails.len() < accepted {
+                h.violation("c01:mismatch-dial-without-failure", format!("{accepted} dial(s) of V through the address of another identity were accepted, {} failure report(s) arrived within 30 s each: {fails:?}", fails.len()));
+                return;
+            }
+            for f in fails.iter() {
+                match f.iter().find(|(a, _)| a.contains("/ip4/10.0.0.2/")) {
+                    Some((_, e)) if e.contains("PeerIdMismatch") => h.probe("peer-id-mismatch-reported"),
+                    Some((a, e)) => {
+                        h.violation("c01:mismatch-reported-as-other-error", format!("address {a} leads to another identity, reported error: {e}"));
+                        return;
+                    }
+                    None => {
+                        h.violation("c01:impostor-address-missing-from-failures", format!("failure report {f:?} does not name the address that led to another identity"));
+                        return;
+                    }
+                }
+            }
+        })
+    })
 }
